@@ -16,7 +16,7 @@ Extraction "model.ml"
   stats_run stats0 c01_ok exec init terminal
   worker_obs run_obs combine_obs measured_ok cleanups_once_ok
   gather_obs
-  parse_duration atoi trim_space parse_rate parse_rate_pinned parse_stages calc_constant calc_ramp calc_staged calc_gaussian parse_config c15_run_ok c15_trigger_ok
+  parse_duration atoi trim_space parse_rate parse_rate_pinned parse_stages calc_constant calc_ramp calc_staged calc_gaussian parse_config config_jitter_ok c15_run_ok c15_trigger_ok
   render_progress render_result render_exit render_stage log_progress log_result read_progress duration_string fmt_f2
   gauss_run gauss_ok carry_run weight_index
   runner_trace_ok runner_times_ok rexec rinit
